@@ -72,6 +72,8 @@ type KPlan struct {
 	SendErr   []int           `json:"send_errno,omitempty"`
 	Tape      []uint16        `json:"tape,omitempty"`
 	Strategy  int             `json:"strategy,omitempty"`
+	Auto      uint32          `json:"auto_density,omitempty"` // statement-level pre-emption in the concurrent phase
+	AutoSalt  uint32          `json:"auto_salt,omitempty"`
 }
 
 func (p *KPlan) Valid() bool {
@@ -454,7 +456,9 @@ func GenKPlanC17(r *core.Rng) *KPlan {
 	if r.Chance(1, 3) {
 		genRecv(r, 6*n, p, 20)
 	}
-	for i := 0; i < 60; i++ {
+	p.Auto = core.Pick(r, uint32(0), 0, 1, 2, 4)
+	p.AutoSalt = r.U32()
+	for i := 0; i < 60+int(p.Auto)*20; i++ {
 		p.Tape = append(p.Tape, uint16(r.Intn(1<<16)))
 	}
 	p.Strategy = r.Intn(2)
@@ -496,10 +500,15 @@ func GenKPlanC18(r *core.Rng) *KPlan {
 	}
 	if r.Chance(2, 3) {
 		nt := r.Range(1, 4)
+		recvTasks := r.Chance(1, 3) // tasks that receive on two independent clients
 		for t := 0; t < nt; t++ {
 			var ops []KOp
 			for k := r.Range(1, 5); k > 0; k-- {
-				ops = append(ops, sendOp())
+				if recvTasks && r.Chance(2, 3) {
+					ops = append(ops, KOp{K: kRecvRaw, A: uint32(core.Pick(r, 16, 17, 40, r.Range(16, 300)))})
+				} else {
+					ops = append(ops, sendOp())
+				}
 			}
 			p.Tasks = append(p.Tasks, ops)
 		}
@@ -513,7 +522,9 @@ func GenKPlanC18(r *core.Rng) *KPlan {
 			p.SendErr = append(p.SendErr, e)
 		}
 	}
-	for i := 0; i < 80; i++ {
+	p.Auto = core.Pick(r, uint32(0), 0, 1, 1, 2, 4)
+	p.AutoSalt = r.U32()
+	for i := 0; i < 80+int(p.Auto)*40; i++ {
 		p.Tape = append(p.Tape, uint16(r.Intn(1<<16)))
 	}
 	p.Strategy = r.Intn(2)
